@@ -19,7 +19,8 @@ LEVEL = 'exploration'
 RULE = ('Hypothesis draws modules whose every text-bearing clause (DESCRIPTION of all clause kinds, REFERENCE, '
         'ORGANIZATION, CONTACT-INFO, UNITS, DISPLAY-HINT, PRODUCT-RELEASE, REVISION descriptions) carries a string '
         'built from a trouble-weighted alphabet: backslash sequences, apostrophe runs, Jinja look-alikes, tabs, '
-        'LF/CRLF/CR, space runs, unbroken words of 90-140 chars, empty string, Latin-1/CJK/astral characters; '
+        'LF/CRLF/CR, space runs, unbroken words of 90-140 chars, unbroken words of 90-200 chars made of backslashes and the letters '
+        'after them, empty string, Latin-1/CJK/astral characters; '
         'genTexts on/off x default/identity text filter. Non-trivial: some text of the module contains a '
         'backslash, an apostrophe run, a line break, a > 79-char word or a non-ASCII character. Distinct = model hash.')
 ASSUMPTIONS = [
